@@ -102,6 +102,61 @@ func main() {
 		}
 	}
 
+	// clone-like constructors of package conf: every function or method whose name contains "clone" or "copy"
+	// (any case), and every exported parameterless method of Conf / Path that returns a Conf / Path.  The model
+	// knows deepClone, Conf.Clone and Path.Clone (both = deepClone of the receiver); anything else is counted
+	// as unknown and breaks theorem gen_clone_constructors until it is modelled.
+	var ctors, unknown []string
+	files, _ := filepath.Glob(filepath.Join(*repo, "internal/conf/*.go"))
+	for _, fp := range files {
+		if strings.HasSuffix(fp, "_test.go") {
+			continue
+		}
+		f2, err := parser.ParseFile(token.NewFileSet(), fp, nil, 0)
+		if err != nil {
+			fmt.Fprintln(os.Stderr, "parse:", err)
+			os.Exit(1)
+		}
+		for _, d := range f2.Decls {
+			fd, ok := d.(*ast.FuncDecl)
+			if !ok {
+				continue
+			}
+			tname := func(e ast.Expr) string {
+				if st, ok := e.(*ast.StarExpr); ok {
+					e = st.X
+				}
+				if id, ok := e.(*ast.Ident); ok {
+					return id.Name
+				}
+				return ""
+			}
+			recv := ""
+			if fd.Recv != nil && len(fd.Recv.List) == 1 {
+				recv = tname(fd.Recv.List[0].Type)
+			}
+			lname := strings.ToLower(fd.Name.Name)
+			byName := strings.Contains(lname, "clone") || (strings.Contains(lname, "copy") && fd.Name.Name != "copyStructFields")
+			bySig := false
+			if (recv == "Conf" || recv == "Path") && fd.Name.IsExported() && fd.Type.Params.NumFields() == 0 &&
+				fd.Type.Results != nil && len(fd.Type.Results.List) == 1 {
+				rt := tname(fd.Type.Results.List[0].Type)
+				bySig = rt == "Conf" || rt == "Path"
+			}
+			if !byName && !bySig {
+				continue
+			}
+			full := fd.Name.Name
+			if recv != "" {
+				full = recv + "." + full
+			}
+			ctors = append(ctors, full)
+			if full != "deepClone" && full != "Conf.Clone" && full != "Path.Clone" {
+				unknown = append(unknown, full)
+			}
+		}
+	}
+
 	b := func(v bool) string {
 		if v {
 			return "true"
@@ -119,6 +174,10 @@ func main() {
 	fmt.Fprintf(&sb, "def otherCases : Nat := %d\n", other)
 	sb.WriteString("/-- the switch ends in `default: return rv` -/\n")
 	fmt.Fprintf(&sb, "def defaultReturnsArg : Bool := %s\n", b(defaultReturnsArg))
+	fmt.Fprintf(&sb, "/-- clone-like constructors found in internal/conf: %s -/\n", strings.Join(ctors, ", "))
+	fmt.Fprintf(&sb, "def cloneConstructors : Nat := %d\n", len(ctors))
+	fmt.Fprintf(&sb, "/-- those the model does not know: %s -/\n", strings.Join(unknown, ", "))
+	fmt.Fprintf(&sb, "def unknownCloneConstructors : Nat := %d\n", len(unknown))
 	sb.WriteString("\nend MtxVerif.Gen." + *name + "\n")
 
 	dst := filepath.Join(*out, "MtxVerif/Gen/"+*name+".lean")
